@@ -104,7 +104,10 @@ CLAIMED = {
             "silence_after_unfetch, no_spurious_on_rollback (index-full add: add then remove), order_is_generation_order - for every history, "
             "configuration and oracle. A fetch's lifetime is delimited at request granularity (step_granularity_too_coarse shows why the batch "
             "[fetch, unfetch, fetch] needs that). " + DAEMON_TIE + "Monitor: every subscriber's stream is replayed into a replica and compared at "
-            "every quiescent point with the daemon's own element set filtered by a python reference of the rule.",
+            "every quiescent point with the daemon's own element set filtered by a python reference of the rule. Values pass through the daemon by "
+            "parse then print: on the component model of the vendored cJSON.c strings and number-free trees survive exactly "
+            "(json_string_survives_print_parse, json_tree_survives_print_parse) and a double survives bit for bit given the strtod/sprintf "
+            "oracle (code as repaired, F65; counterexample for the code before).",
             TB + DAEMON_NOTE, "Lean 4 proof over executable model + differential correspondence with the compiled daemon", "DESIGN.md §6 C01, docs/C01-proofs.md"),
     "C02": ("proof",
             "23 Lean theorems over the daemon model: response_shape / id_echo (the response id is the request's id, same bytes / same number), "
@@ -211,7 +214,11 @@ CLAIMED = {
             "disconnect_all_reaches_baseline, term_releases_all, objects_owned_once, close_releases_exactly; on a model of alloc.c (size_t arithmetic, "
             "cap test as written, OS-failure oracle) cap_respected, accounting_exact, refusal_iff, free_returns_to_baseline; on a model of the accept "
             "path of linux_io.c fd_closed_or_owned_exactly_once, fd_discipline_monitor, no_leak_of_peer_or_bs, init_failure_releases_both, "
-            "start_server_unwinds, stop_server_closes_listener (every script of accept results and set-up failures). " + DAEMON_TIE +
+            "start_server_unwinds, stop_server_closes_listener (every script of accept results and set-up failures); on a model of run_io's "
+            "start-up and shut-down (Cjet.Startup, every configuration and failure script) startup_releases_all_listeners, "
+            "startup_failure_releases_all (code as repaired, F66; counterexample for the code before), remove_before_close, "
+            "no_use_after_close, startup_success_owns_exactly, shutdown_releases_all, shutdown_order, error_reported. " + DAEMON_TIE +
+            "Single-fault enumeration over epoll registrations (every connection and timer registration of the corpus fails in turn; F67). " +
             "Monitor: at every snapshot with all client connections gone and after SIGTERM the accounted heap, peer count, simulated descriptor table "
             "and armed timers must be at baseline and run_io must return 0; the simulated kernel reports every double close, operation on a closed or "
             "foreign descriptor and epoll_ctl on a non-epoll descriptor. Allocator tie: real alloc.c with intercepted malloc/calloc on random scripts "
@@ -225,8 +232,9 @@ CLAIMED = {
             "remove_routing_information on the late failures, fetch creation for all shapes up to 3 matchers x 4 operands and 0-12 single-operand "
             "matchers, fetcher-table growth, raw / HTTP / WebSocket connection set-up): unwind_releases_all (for EVERY failure point the held set "
             "equals the held set before, nothing released twice), at_most_one_response, table_not_left_dangling; the audit rejects the pre-repair "
-            "routed-request ladder. Tie: single-fault enumeration — every allocation of every corpus scenario (all request types, teardown paths, "
-            "authentication, regressions) fails in turn (every index in thorough, every third in quick) plus multi-fault runs, judged by "
+            "routed-request ladder; startup_goto_ladders_audit / startup_failure_releases_all for the goto ladders of run_io (label for label, "
+            "tied to the real linux_io.c by the Startup component harness). Tie: single-fault enumeration — every allocation of every corpus scenario (all request types, teardown paths, "
+            "authentication, regressions) fails in turn (every index, both tiers) plus multi-fault runs, judged by "
             "ASan/UBSan/LSan, accounted heap, peers, descriptors, two liveness probes and at most one response per request.",
             TB + "The ladder transcriptions are by hand (per-step C line tables in docs/C15-proofs.md); one C allocation does not map one-to-one to a "
             "ladder step (cJSON nodes). Open known finding F60 (unchecked cJSON_AddItemToObject: a failing key copy leaks the item) is printed on every run.",
